@@ -688,40 +688,74 @@ def _link_run(pm, v):
     kind = v["kind"]
     rx = v["rx"]
     src = NetSource("localhost", 0, kind)
-    src.stop_flag = Flag()
-    src.raw_pipe_in = Pipe()
     dec = Decode(latlon=(360.0 * rx[1] / 1048576, 360.0 * rx[2] / 1048576) if rx[0] else None)
-    read = {"beast": src.read_beast_buffer, "raw": src.read_raw_buffer}[kind]
     wire = _wire(kind, v["frs"])
     cuts = [0] + list(v["cuts"]) + [len(wire)]
+    chunks = [(k, a, b) for k, (a, b) in enumerate(zip(cuts, cuts[1:])) if b > a]
     real_time = _time.time
     vnow = [0.0]
     _time.time = lambda: vnow[0]
     steps = []
-    try:
-        for k, (a, b) in enumerate(zip(cuts, cuts[1:])):
-            vnow[0] = v["times"][k] / 2.0
-            exc = 0
-            handed, sent = [], []
-            try:
-                src.buffer.extend(wire[a:b])
-                msgs = read()
-                before = len(src.raw_pipe_in.sent)
-                if msgs:
-                    src.handle_messages(msgs)
-                handed = [enc.text(m[0]) for m in (msgs or [])]
-                for bt in src.raw_pipe_in.sent[before:]:
-                    sent.append({"adsb": [list(bytes.fromhex(m)) for m in bt["adsb_msg"]],
-                                 "commb": [list(bytes.fromhex(m)) for m in bt["commb_msg"]]})
-                    dec.process_raw(bt["adsb_ts"], bt["adsb_msg"], bt["commb_ts"], bt["commb_msg"])
-            except Exception:  # noqa: BLE001
-                exc = 1
-            post, dup = _project(dec.get_aircraft()) if not exc else ([], 0)
+    cur = {}
+
+    class Stop(BaseException):
+        pass
+
+    def close_step():
+        if cur:
+            post, dup = _project(dec.get_aircraft())
             for p in post:
                 p.pop("c", None)
-            steps.append({"n": b - a, "now": v["times"][k], "handed": handed, "sent": sent, "post": post, "exc": exc, "dup": dup})
-            if exc:
-                break
+            steps.append({"n": cur["n"], "now": cur["now"], "handed": cur["handed"], "sent": cur["sent"], "post": post, "exc": 0, "dup": dup})
+            cur.clear()
+
+    class RawIn:
+        def send(self, bt):
+            cur["sent"].append({"adsb": [list(bytes.fromhex(m)) for m in bt["adsb_msg"]],
+                                "commb": [list(bytes.fromhex(m)) for m in bt["commb_msg"]]})
+            dec.process_raw(bt["adsb_ts"], bt["adsb_msg"], bt["commb_ts"], bt["commb_msg"])
+
+    class Sock:
+        """stands in for the zmq STREAM socket of TcpClient.run: one scripted piece per recv, a receive time-out now and then"""
+        def __init__(self):
+            self.i = 0
+            self.again = 0
+
+        def recv(self, n):
+            close_step()
+            if self.i >= len(chunks):
+                raise Stop()
+            k, a, b = chunks[self.i]
+            if (a * 7 + b + self.again) % 5 == 0 and self.again < 2 * len(chunks):
+                self.again += 1
+                import zmq
+                raise zmq.error.Again()
+            self.i += 1
+            vnow[0] = v["times"][k] / 2.0
+            cur.update({"n": b - a, "now": v["times"][k], "handed": [], "sent": []})
+            return bytes(wire[a:b])
+
+        def close(self):
+            pass
+
+    real_handle = src.handle_messages
+
+    def handle(msgs):
+        cur["handed"] += [enc.text(m[0]) for m in (msgs or [])]
+        return real_handle(msgs)
+
+    src.handle_messages = handle
+    sock = Sock()
+    src.connect = lambda: setattr(src, "socket", sock)
+    try:
+        try:
+            # the real receive loop of the network source (TcpClient.run): recv -> buffer -> framer by datatype -> handle_messages
+            src.run(RawIn(), Flag(), None)
+        except Stop:
+            pass
+        except Exception:  # noqa: BLE001
+            if cur:
+                steps.append({"n": cur["n"], "now": cur["now"], "handed": cur["handed"], "sent": cur["sent"], "post": [], "exc": 1, "dup": 0})
     finally:
         _time.time = real_time
     return {"t": "steps", "v": steps}
